@@ -332,6 +332,10 @@ func checkProperty(prop, only string) int {
 			defer wg.Done()
 			ws[k] = newWorker(k, sh, ld, e)
 			ws[k].solver = NewSolver(cfg.queryMs)
+			ws[k].crossEvery = 97
+			if tier == "thorough" {
+				ws[k].crossEvery = 13
+			}
 		}(k)
 	}
 	wg.Wait()
@@ -604,12 +608,23 @@ func writeEvidence(prop string, ld *loaded, ws []*Worker, results []*HarnessResu
 		hres = append(hres, r)
 	}
 	queries := stats.Sat + stats.Unsat + stats.Unknown
+	domDec, crossChecked, crossMismatch, decisions := 0, 0, 0, 0
+	for _, w := range ws {
+		domDec += w.domDecisions
+		crossChecked += w.crossChecked
+		crossMismatch += w.crossMismatch
+		decisions += w.decisions
+	}
 	cov := map[string]interface{}{
-		"evaluations":                   queries,
+		"evaluations":                   queries + domDec,
 		"distinct_nontrivial":           nontrivial,
-		"rule":                          "evaluations = solver queries discharged (branch feasibility, run-time panic obligations, assertions); distinct_nontrivial = completed paths (each a distinct decision sequence) that took at least one solver-decided branch on a symbolic input; every path is one equivalence class of inputs, decided for all its members at once",
+		"rule":                          "evaluations = decisions discharged about symbolic conditions (branch feasibility, run-time panic obligations, assertions): by the SMT solver (decided_by_smt_solver) or, for conditions over a single byte-sized input, by exhaustive evaluation over its 256-value domain (decided_by_byte_domain_pass; a sample is re-decided by the solver); transitions = decisions taken along all paths (incl. forks over harness choices); distinct_nontrivial = completed paths (each a distinct decision sequence) that took at least one solver-decided branch on a symbolic input; every path is one equivalence class of inputs, decided for all its members at once",
 		"states":                        sumPaths(paths),
-		"transitions":                   queries,
+		"transitions":                   decisions + 1,
+		"decided_by_smt_solver":         queries,
+		"decided_by_byte_domain_pass":   domDec,
+		"domain_verdicts_rechecked_by_solver": crossChecked,
+		"domain_solver_disagreements":   crossMismatch,
 		"traces_validated_against_impl": replayed,
 		"samples":                       samples,
 		"exhaustive":                    !incomplete && len(vacuous) == 0,
